@@ -231,8 +231,13 @@ func reconnScenario(r *rand.Rand, sum *sumT) int {
 			if handled {
 				lag := ret.Sub(h)
 				class := "prompt"
-				if err != nil {
+				if err != nil && kind == "rpc" {
+					// the restarted server handled the request and sent its reply, nothing failed afterwards,
+					// and yet the call reports an error: the reply was thrown away
 					class = "handled-but-error"
+					sum.mismatch(Mismatch{Property: "C10", Case: caseS + " " + phase, Expected: "the call receives the reply the restarted server has sent", Observed: "error: " + strings.ReplaceAll(err.Error(), "\n", "/"), Detail: lateDetail})
+				} else if err != nil {
+					class = "handled-but-error-elsewhere" // a quorum call: another node may have failed
 				}
 				if lag > time.Second && lateWedge != "" {
 					// another node of the configuration sits in a known wedge: the call was held up handing its
